@@ -369,7 +369,7 @@ def build_variant(repo, with_step):
         ensures final(self).0.inv(), final(self).0.is_first == old(self).0.is_first, final(self).0.add_newlines == old(self).0.add_newlines,
             old(self).0.err() ==> final(self).0.err(),
             step(*old(self).0.write, old(self).0.err(), *final(self).0.write, final(self).0.err(), out_key(key))''', props=PROPS)
-    for fn, out in [('attr', 'step(*self.0.write, self.0.err(), *r.0.write, r.0.err(), (if attr_quoted_for(value@) { out_quoted(key, value) } else { out_plain(key, value) }))'), ('attr_u32', 'step(*self.0.write, self.0.err(), *r.0.write, r.0.err(), out_u32(key, value))'),
+    for fn, out in [('attr', '// the quoted form, or - only for a value in which no character asks for quotes - the plain form (quoting more than necessary is fine)\n            (step(*self.0.write, self.0.err(), *r.0.write, r.0.err(), out_quoted(key, value)) || (!attr_quoted_for(value@) && step(*self.0.write, self.0.err(), *r.0.write, r.0.err(), out_plain(key, value))))'), ('attr_u32', 'step(*self.0.write, self.0.err(), *r.0.write, r.0.err(), out_u32(key, value))'),
                     ('attr_u16', 'step(*self.0.write, self.0.err(), *r.0.write, r.0.err(), out_u32(key, value as u32))'),
                     ('attr_quoted', 'step(*self.0.write, self.0.err(), *r.0.write, r.0.err(), out_quoted(key, value))')]:
         u.contract((LAW, fn), '''        requires self.0.inv()
@@ -382,7 +382,7 @@ def build_variant(repo, with_step):
             final(self.0).is_first == old(self.0).is_first, final(self.0).add_newlines == old(self.0).add_newlines''', props=PROPS)
     if not with_step:
         # drop every step(...) clause, keep the invariant clauses
-        u.text = re.sub(r',\s*\n\s*step\([^\n]*\)', '', u.text)
+        u.text = re.sub(r',\s*\n(?:\s*//[^\n]*\n)?\s*\(?step\([^\n]*\)', '', u.text)
         # the only loop of the writer (escaping in attr_quoted) keeps the invariant
         u.body_start((LAW, 'attr_quoted'), '        let ghost g_first = self.0.is_first; let ghost g_newlines = self.0.add_newlines; let ghost g_err = self.0.error is Some;')
         try:
